@@ -629,3 +629,6 @@ def oracle_queries(case, impl, gens, nbrs, I0, R0):
             if bad: break
         if kind != 'SIS': S -= set(new)
     return bad
+
+
+oracle_generator = oracle_bfs      # same name as in gil_lib, for the cross-cutting checks
